@@ -5,72 +5,56 @@ use program_structure::ast::AST;
 use program_structure::report::Report;
 use program_structure::file_definition::FileID;
 
+/// Replaces every comment by blanks of the same length in bytes, so that all
+/// offsets into the returned string are offsets into the original file.
+///
+/// A line comment (`//`) ends before the next newline. A block comment (`/*`)
+/// ends with the first `*/` that follows the opener. A block comment which is
+/// still open at the end of the file is an error, reported at the opening `/*`.
 pub fn preprocess(expr: &str, file_id: FileID) -> Result<String, Box<Report>> {
-    let mut pp = String::new();
-    let mut state = 0;
-    let mut loc = 0;
-    let mut block_start = 0;
+    enum State {
+        Code,
+        LineComment,
+        /// Byte offset of the opening `/*`.
+        BlockComment(usize),
+    }
 
-    let mut it = expr.chars();
-    while let Some(c0) = it.next() {
-        loc += 1;
-        match (state, c0) {
-            (0, '/') => {
-                loc += 1;
-                match it.next() {
-                    Some('/') => {
-                        state = 1;
-                        pp.push(' ');
-                        pp.push(' ');
-                    }
-                    Some('*') => {
-                        block_start = loc;
-                        state = 2;
-                        pp.push(' ');
-                        pp.push(' ');
-                    }
-                    Some(c1) => {
-                        pp.push(c0);
-                        pp.push(c1);
-                    }
-                    None => {
-                        pp.push(c0);
-                        break;
-                    }
-                }
+    let mut pp = String::with_capacity(expr.len());
+    let mut state = State::Code;
+    let mut it = expr.char_indices().peekable();
+    while let Some((offset, c0)) = it.next() {
+        let c1 = it.peek().map(|&(_, c1)| c1);
+        match (&state, c0, c1) {
+            (State::Code, '/', Some('/')) => {
+                it.next();
+                pp.push_str("  ");
+                state = State::LineComment;
             }
-            (0, _) => pp.push(c0),
-            (1, '\n') => {
+            (State::Code, '/', Some('*')) => {
+                it.next();
+                pp.push_str("  ");
+                state = State::BlockComment(offset);
+            }
+            (State::Code, _, _) => pp.push(c0),
+            (State::LineComment, '\n', _) => {
                 pp.push(c0);
-                state = 0;
+                state = State::Code;
             }
-            (2, '*') => {
-                loc += 1;
-                match it.next() {
-                    Some('/') => {
-                        pp.push(' ');
-                        pp.push(' ');
-                        state = 0;
-                    }
-                    Some(c) => {
-                        pp.push(' ');
-                        for _i in 0..c.len_utf8() {
-                            pp.push(' ');
-                        }
-                    }
-                    None => {
-                        let error =
-                            UnclosedCommentError { location: block_start..block_start, file_id };
-                        return Err(Box::new(error.into_report()));
-                    }
-                }
+            (State::BlockComment(_), '*', Some('/')) => {
+                it.next();
+                pp.push_str("  ");
+                state = State::Code;
             }
-            (_, c) => {
-                for _i in 0..c.len_utf8() {
+            (State::LineComment | State::BlockComment(_), _, _) => {
+                for _ in 0..c0.len_utf8() {
                     pp.push(' ');
                 }
             }
         }
+    }
+    if let State::BlockComment(start) = state {
+        let error = UnclosedCommentError { location: start..start + 2, file_id };
+        return Err(Box::new(error.into_report()));
     }
     Ok(pp)
 }
